@@ -362,8 +362,7 @@ def check_shapes(ctx):
                     or src(fors[0].iter) != 'range(num_species)' or src(r.value) != 'c_current_state[%s]' % idx[1]:
                 problems.append('recording is not c_results[current_index, s] = c_current_state[s] for all s: %s' % util.stmt_key(r))
             wh = fors[0]._parent if fors else None
-            if not (isinstance(wh, ast.While) and 'c_timepoints[current_index] <= current_time' in src(wh.test)
-                    and 'current_index < num_timepoints' in src(wh.test)):
+            if not (isinstance(wh, ast.While) and util.canon_test(wh.test) == '(c_timepoints[current_index]<=current_time and current_index<num_timepoints)'):
                 problems.append('recording loop condition changed: %s' % (src(wh.test) if isinstance(wh, ast.While) else None))
             else:
                 incs = [util.stmt_key(x) for x in wh.body]
